@@ -208,7 +208,9 @@ func NewRun(max int64, ncallers int, expectBg bool) *Run {
 		g := &G{kind: gCaller, idx: i, wake: make(chan string, 1), state: stRunning}
 		g.ctx, g.cancel = context.WithCancel(context.Background())
 		r.callers = append(r.callers, g)
+		r.mu.Lock()
 		r.running++
+		r.mu.Unlock()
 		go func() {
 			r.register(g)
 			if r.yield(g, "caller.idle", nil) == "abort" {
